@@ -136,8 +136,11 @@ fn conv_level(rng: &mut Rng, o: &ConvOpts, name: String, depth_left: usize, inhe
                 5 => Some((0, usize::MAX)),
                 _ => None,
             };
+            // (without a missing-value default an occurrence without value stays an empty occurrence)
             if let Some((0, _)) = a.num_args {
-                a.default_missing = vec![format!("{}dm", a.id)];
+                if !o.extended || rng.chance(2, 3) {
+                    a.default_missing = vec![format!("{}dm", a.id)];
+                }
             }
             if o.delims && rng.chance(1, 4) {
                 a.delim = Some(*rng.pick(&[',', ':']));
@@ -179,6 +182,20 @@ fn conv_level(rng: &mut Rng, o: &ConvOpts, name: String, depth_left: usize, inhe
                 }
                 if !a.defaults.is_empty() {
                     a.defaults = vec!["8".into()];
+                }
+            } else if o.typed && a.delim.is_none() && !a.allow_negative && !a.allow_hyphen && rng.chance(1, 5) {
+                // an enumerated value with aliases, sometimes case-insensitive
+                a.vp = Some(Vp::Possible(vec![
+                    Pv { name: "fast".into(), aliases: vec!["quick".into(), "Rapid".into()], hide: false, help: None },
+                    Pv { name: "slow".into(), aliases: vec![], hide: rng.chance(1, 4), help: None },
+                    Pv { name: "Auto".into(), aliases: vec!["dflt".into()], hide: false, help: None },
+                ]));
+                a.ignore_case = rng.coin();
+                if !a.default_missing.is_empty() {
+                    a.default_missing = vec!["slow".into()];
+                }
+                if !a.defaults.is_empty() {
+                    a.defaults = vec!["fast".into()];
                 }
             }
         }
@@ -243,7 +260,8 @@ fn conv_level(rng: &mut Rng, o: &ConvOpts, name: String, depth_left: usize, inhe
         }
         c.args[second].action = Some(if rng.coin() { Act::Append } else { Act::Set });
         c.args[second].num_args = Some((1, usize::MAX));
-        c.args[second].terminator = None;
+        // (with a terminator the pair is spelled `a b ; target`)
+        c.args[second].terminator = if rng.chance(1, 3) { Some(";".into()) } else { None };
         c.args[second].delim = None;
         // (the look-ahead that hands the last token to the final positional treats any dash-looking
         // token as "a new argument", so a negative-number value for the *final* one is outside this shape)
@@ -408,12 +426,24 @@ fn value_tok(rng: &mut Rng, a: &ArgSpec, occ: usize, k: usize) -> String {
     if let Some(Vp::I64(_, _)) = a.vp {
         return format!("{}", 1000 * occ + 10 * k + 1 + rng.below(9));
     }
+    if let Some(Vp::Possible(pvs)) = &a.vp {
+        // a declared name or alias; in any letter case when the argument ignores case
+        let pv = rng.pick(pvs);
+        let mut names = vec![pv.name.clone()];
+        names.extend(pv.aliases.iter().cloned());
+        let n = rng.pick(&names).clone();
+        return if a.ignore_case { n.chars().map(|c| if rng.coin() { c.to_ascii_uppercase() } else { c.to_ascii_lowercase() }).collect() } else { n };
+    }
     if a.allow_negative && rng.coin() {
         // a negative number unique to (arg, occurrence, k)
         let n = hash_str(&a.id) % 900 + 100;
         return if rng.coin() { format!("-{}{}{}", n, occ, k) } else { format!("-{}{}.{}", n, occ, k) };
     }
     let base = format!("{}o{}v{}", a.id, occ, k);
+    // the empty string is a value like any other (`--opt=`, `--opt ""`, a `""` positional)
+    if !a.allow_hyphen && rng.chance(1, 24) {
+        return String::new();
+    }
     if a.allow_hyphen && rng.chance(2, 3) {
         return if rng.coin() { format!("-{}", base) } else { format!("--{}", base) };
     }
@@ -617,6 +647,13 @@ pub fn gen_intent(rng: &mut Rng, c: &CmdSpec, io: &IntentOpts) -> LevelIntent {
                         term = Some(t.clone());
                     }
                     // otherwise it cannot be closed: the caller drops the subcommand
+                }
+                // (a terminated multi-valued positional switches the low-index look-ahead off: the
+                // terminator is then the only way to reach the final positional)
+                if pair_next {
+                    if let Some(t) = &a.terminator {
+                        term = Some(t.clone());
+                    }
                 }
                 let mut toks: Vec<String> = (0..ntok).map(|j| value_tok(rng, a, occ, j)).collect();
                 if a.allow_hyphen {
@@ -880,18 +917,25 @@ fn render_level<'a>(rng: &mut Rng, c: &'a CmdSpec, li: &LevelIntent, st: &Style,
             Item::Pos { arg, toks } => {
                 last_cluster_tok = None;
                 let a = &c.args[*arg];
+                if toks.iter().any(|t| t.is_empty()) {
+                    r.features.push("value.empty");
+                }
                 if !escaped {
                     let must = a.last;
                     let may = i >= suffix_start
                         && li.sub.is_none()
                         && li.external.is_none()
                         && !c.has(Setting::AllowMissingPositional)
-                        && !c.args.iter().any(|x| x.last)
-                        && items[i..].iter().all(|it| !matches!(it, Item::Term { .. }));
+                        && !c.args.iter().any(|x| x.last);
+                    // (a positional's own terminator keeps working after `--`)
+                    let term_after = items[i..].iter().any(|it| matches!(it, Item::Term { .. }));
                     if must || (may && rng.below(100) < st.escape) {
                         push_tok(r, "--".into());
                         escaped = true;
                         r.features.push(if must { "escape.required-for-last" } else { "escape.optional" });
+                        if term_after {
+                            r.features.push("escape.before-terminated-positional");
+                        }
                     }
                 }
                 for t in toks {
@@ -930,7 +974,10 @@ fn render_level<'a>(rng: &mut Rng, c: &'a CmdSpec, li: &LevelIntent, st: &Style,
                                 let och = short_spelling(rng, ob, r);
                                 tok.push(och);
                                 r.features.push("cluster.option-last");
-                                if toks.len() == 1 && !term_follows && (forced_attach || rng.below(100) < st.attach_short) {
+                                if toks.len() == 1 && !term_follows && (forced_attach || (rng.below(100) < st.attach_short && !toks[0].is_empty())) {
+                                    if toks[0].is_empty() {
+                                        tok.push('='); // `-abo` alone would be "no value"
+                                    }
                                     let off = tok.len();
                                     tok.push_str(&toks[0]);
                                     push_tok(r, tok.clone());
@@ -968,6 +1015,9 @@ fn render_level<'a>(rng: &mut Rng, c: &'a CmdSpec, li: &LevelIntent, st: &Style,
             Item::Opt { arg, toks } => {
                 last_cluster_tok = None;
                 let a = &c.args[*arg];
+                if toks.iter().any(|t| t.is_empty()) {
+                    r.features.push("value.empty");
+                }
                 let forced_attach = matches!(items.get(i + 1), Some(Item::Term { tok }) if tok.is_empty());
                 let term_follows = matches!(items.get(i + 1), Some(Item::Term { tok }) if !tok.is_empty());
                 let use_short = a.short.is_some() && (a.long.is_none() || rng.below(100) < st.prefer_short);
@@ -977,7 +1027,7 @@ fn render_level<'a>(rng: &mut Rng, c: &'a CmdSpec, li: &LevelIntent, st: &Style,
                 if use_short {
                     let ch = short_spelling(rng, a, r);
                     if attach {
-                        let with_eq = a.require_equals || rng.below(100) < 50;
+                        let with_eq = a.require_equals || toks[0].is_empty() || rng.below(100) < 50;
                         let head = if with_eq { format!("-{}=", ch) } else { format!("-{}", ch) };
                         let off = head.len();
                         let ti = push_tok(r, format!("{}{}", head, toks[0]));
